@@ -25,11 +25,14 @@ def enum_models(tier):
         for cyc in (True, False):
             for ke in ([2, 6] if q else [0, 2, 4, 6, 8, 10]):
                 out.append(('co_oxidation', (order, 10.0 ** ke, cyc)))
-    for d in range(2, 4 if q else 5):
+    for order in ((7,) if q else (6, 8, 10, 12)):  # larger chains: column sums and sampled off-diagonals in TT form
+        for cyc in (True, False):
+            out.append(('co_oxidation', (order, 1e4, cyc)))
+    for d in range(2, 4 if q else 7):
         out.append(('signaling_cascade', (d,)))
-    for lanes in range(2, 5 if q else 6):
-        for cars in range(1, 4 if q else 5):
-            if (cars + 1) ** lanes <= 3200:
+    for lanes in range(2, 5 if q else 8):
+        for cars in range(1, 4 if q else 6):
+            if (cars + 1) ** lanes <= (3200 if q else 10 ** 6):
                 out.append(('toll_station', (lanes, cars)))
     for m in range(1, 4 if q else 5):
         for ks in ([(1.0, 2.0, 1.0)] if q else [(1.0, 2.0, 1.0), (0.1, 10.0, 3.0), (5.0, 0.5, 0.01)]):
@@ -79,9 +82,45 @@ def w_model(ctx, rng, idx, param):
     if name == 'rgb_fractal':
         n, L = args
         args = (rng.random((n, n)), rng.random((n, n)), rng.random((n, n)), L)
+    # the same constructor is first asked for a neighbouring (larger / other) parameter set in the same process and then for the
+    # enumerated one, and once more afterwards: whatever a constructor remembers between calls must not leak into the next result
+    alt = alternative(rng, name, param[1])
+    if alt is not None and rng.random() < 0.6:
+        call('models.' + name, fn, *alt, prop=P, tags=['model=' + name, 'neighbour_call'])
     call('models.' + name, fn, *args, prop=P, tags=['model=' + name])
+    if alt is not None and rng.random() < 0.3:
+        call('models.' + name, fn, *args, prop=P, tags=['model=' + name, 'repeated_call'])
     if idx % 37 == 0:
         ctx.sample({'workload': 'models', 'model': name, 'args': [repr(a)[:60] for a in param[1]]})
+
+
+def alternative(rng, name, a):
+    """a neighbouring admissible parameter set of the same model (same family / dimension, other size, level or rates)"""
+    if name in ('cantor_dust', 'multisponge', 'vicsek_fractal'):
+        D, L = a
+        return (D, L + 1) if 3 ** (D * (L + 1)) <= 20000 else ((D, L - 1) if L > 1 else None)
+    if name == 'rgb_fractal':
+        n, L = a
+        L2 = L + 1 if n ** (2 * (L + 1)) <= 20000 else max(L - 1, 1)
+        return (rng.random((n, n)), rng.random((n, n)), rng.random((n, n)), L2)
+    if name == 'co_oxidation':
+        return (min(a[0] + 1, 6), a[1] * 10.0, not a[2])
+    if name == 'two_step_destruction':
+        return (float(rng.uniform(0.1, 5)), float(rng.uniform(0.1, 5)), float(rng.uniform(0.1, 5)), min(a[3] + 1, 4))
+    if name == 'toll_station':
+        return (a[0], a[1] + 1) if (a[1] + 2) ** a[0] <= 3200 else (a[0], max(a[1] - 1, 1))
+    if name in ('signaling_cascade', 'qft', 'iqft', 'fpu_coefficients'):
+        return (min(a[0] + 1, 8),)
+    if name == 'qfan':
+        return (a[0] % 3 + 1,)
+    if name == 'shor':
+        return ([2, 4, 7, 8, 11, 13, 14][int(rng.integers(0, 7))],)
+    if name in ('exciton_chain', 'ising'):
+        return (a[0] + 1, float(rng.standard_normal()), float(rng.standard_normal()))
+    if name == 'kuramoto_coefficients':
+        d = a[0] + 1
+        return (d, rng.standard_normal(d))
+    return None
 
 
 def w_random(ctx, rng, idx):
